@@ -253,7 +253,13 @@ def _operand_loops(fn: ast.AST) -> list[tuple[ast.For, str]]:
         elif norm.match(T("enumerate($o.operands)"), n.iter) is not None and isinstance(n.target, ast.Tuple) and len(n.target.elts) == 2 \
                 and all(isinstance(e, ast.Name) for e in n.target.elts):
             out.append((n, n.target.elts[0].id))  # type: ignore[union-attr]
-    return out
+        elif isinstance(n.iter, ast.Call) and callee_name(n.iter) == "zip" and n.iter.args and norm.match(T("$o.operands"), n.iter.args[0]) is not None:
+            out.append((n, ""))  # the per-operand sequences are walked in parallel: there is no index to get wrong
+    indexed = [x for x in out if x[1]]
+    if indexed:
+        return indexed
+    # several parallel walks (the resolution itself, the pointer arithmetic afterwards): the resolution is the one doing the work
+    return sorted(out, key=lambda x: -sum(1 for _ in ast.walk(x[0])))[:1]
 
 
 def operand_index(repo: Repo, chk: Check) -> None:
@@ -291,6 +297,11 @@ def operand_index(repo: Repo, chk: Check) -> None:
         nested = [n for st in loop.body if not (isinstance(st, ast.Expr)) for n in ast.walk(st) if isinstance(n, ast.Call) and callee_name(n) == "append"]
         targets = {ast.unparse(st.value.func.value) for st in tops}  # type: ignore[attr-defined]
         res_lists = [t for t in targets if not any(isinstance(n, ast.Call) and callee_name(n) == "append" and ast.unparse(n.func.value) == t for n in nested)]  # type: ignore[attr-defined]
+        if not res_lists and any(isinstance(st, ast.Assign) and isinstance(st.targets[0], ast.Subscript) for st in loop.body):
+            # results kept in a table instead of a list: whether every operand position gets its own entry is the business of the key audits
+            # (C02.dedupe-key / C02.cache-keys); this clause does not read tables
+            chk.observe(f"C02.operand one-result-per-operand not evaluated for {qual}: per-operand results are stored in a table")
+            continue
         chk.result(len(res_lists) >= 1, "C02.operand", f"{path}:{qual.split('.')[0]}:one-result-per-operand", f"{path}:{loop.lineno}",
                    f"one result per operand is appended, in operand order, to {sorted(res_lists)}",
                    "no list receives exactly one unconditional element per operand iteration")
